@@ -8,7 +8,7 @@ from .c09 import nmea_stream
 
 CHECKER = 'coqc props/C16.v (proofs/ParserNmeaP.v) + correspondence NmeaParser vs extracted model and vs the count_sentences spec'
 
-CLASSES = [b'$', b'*', b'4', b'\n', b'A', b'\xb5', b'0']
+CLASSES = [b'$', b'*', b'4', b'\n', b'A', b'\xb5', b'0', b'!']
 
 
 def count_ref(s):
@@ -36,7 +36,7 @@ def count_ref(s):
 def check(tier, seed):
     res = C.Result('C16', tier, seed)
     res.rule = ('NMEA sentences with correct/wrong/missing/non-hex/upper/lower-case checksums, nested "$", "*" in odd places, bytes '
-                '>= 128, UBX binary between sentences, CR/LF variants; thorough adds all strings of length <= 4 over 7 byte classes '
+                '>= 128, UBX binary between sentences, CR/LF variants; thorough adds all strings of length <= 4 over 8 byte classes '
                 'before/inside/after a valid sentence; compared: frames_rx vs model, vs extracted count_sentences spec, vs a Python '
                 'transcription of the property text; every pair of 23 characters (hex digits, blanks, signs, CR/LF/TAB ...) as checksum field for bodies '
                 'with small and large XOR; sentence bodies with binary material (sync pairs, NUL, CR/LF, bytes >= 128); every stream whole, cut in two (position rotating), with an empty chunk in between, and byte-wise; non-trivial = stream contains "$"')
@@ -86,14 +86,27 @@ def check(tier, seed):
             for c1 in alpha:
                 for c2 in alpha:
                     streams.append((b'$' + body + b'*' + bytes([c1, c2]) + b'\r\n' + good, 'chkfield'))
+        # every byte value 0..255 in either checksum position (digits of other scripts, Latin-1 superscripts ...), and as the byte
+        # before '$' / inside the body (other start-of-sentence characters such as '!' must mean nothing)
+        for body in (b'AK', b'GPRMC,1', b'Az'):
+            x = 0
+            for ch in body:
+                x ^= ch
+            hx = f'{x:02X}'.encode()
+            for v in range(256):
+                streams.append((b'$' + body + b'*' + bytes([v, hx[1]]) + b'\r\n' + good, 'chk-anybyte'))
+                streams.append((b'$' + body + b'*' + bytes([hx[0], v]) + b'\r\n' + good, 'chk-anybyte'))
+                if v not in b'$*':
+                    b2 = body[:1] + bytes([v]) + body[1:]
+                    streams.append((G.nmea(b2) + bytes([v]) + body + b'*' + hx + b'\r\n' + good, 'anybyte-body'))
         res.exhaustive = True
-        res.notes['exhaustive_part'] = f'all strings of length <= {L} over 7 byte classes before / between / inside valid sentences'
+        res.notes['exhaustive_part'] = f'all strings of length <= {L} over 8 byte classes before / between / inside valid sentences'
         cases = []
         for idx, (s, kind) in enumerate(streams):
             ref = f'rx={count_ref(s)}'
             # every stream whole; additionally byte-wise and cut at every position (rotating through the streams)
             variants = [('whole', [s])]
-            if kind != 'chkfield' or idx % 7 == 0:
+            if kind not in ('chkfield', 'chk-anybyte', 'anybyte-body') or idx % 7 == 0:
                 variants.append(('bytes', [s[k:k + 1] for k in range(len(s))]))
             cut = idx % (len(s) + 1)
             variants.append((f'cut@{cut}', [s[:cut], s[cut:]]))
